@@ -461,7 +461,10 @@ func (sp *Spec) LoadContractFile(path, defaultPkg string) error {
 		case "props":
 			c.Props = append(c.Props, strings.Fields(rest)...)
 		case "note":
-			c.Note = rest
+			if c.Note != "" {
+				c.Note += " | "
+			}
+			c.Note += rest
 		default:
 			return fmt.Errorf("%s: unknown directive %q", path, d)
 		}
